@@ -5,6 +5,7 @@ import JulianVerif.Lemmas.Proleptic
 import JulianVerif.Lemmas.YearStart
 import JulianVerif.Lemmas.Order
 import JulianVerif.Lemmas.CalOrder
+import JulianVerif.Lemmas.GenLib
 namespace JV.C11
 open JV Spec
 
@@ -132,5 +133,18 @@ theorem label_strict_mono_proleptic (ρ : Rule) (j j' : Int) (h : j < j')
     (h1 : IsDate ρ j y m d) (h2 : IsDate ρ j' y' m' d') :
     y < y' ∨ (y = y' ∧ (m.number < m'.number ∨ (m = m' ∧ d < d'))) :=
   isDate_lt h1 h2 h
+
+/-! ### the comparison impls as GENERATED from the source
+
+`Gen.calendarCmp`, `Gen.calendarEq`, `Gen.dateCmp` … are produced by bin/libgen from
+`impl Ord / PartialEq / PartialOrd for inner::Calendar` and `impl Ord / PartialOrd for Date`; they are
+the model's `Calendar.cmp`, `Calendar.beq`, `Date.cmp`, which the theorems above are about. -/
+
+theorem generated_comparisons :
+    (∀ a b : Calendar, Gen.calendarCmp a b = a.cmp b ∧ Gen.calendarEq a b = a.beq b
+      ∧ Gen.calendarPartialCmp a b = some (a.cmp b))
+    ∧ (∀ a b : Date, Gen.dateCmp a b = a.cmp b ∧ Gen.datePartialCmp a b = some (a.cmp b)) :=
+  ⟨fun a b => ⟨Gen.calendarCmp_eq a b, Gen.calendarEq_eq a b, Gen.calendarPartialCmp_eq a b⟩,
+   fun a b => ⟨Gen.dateCmp_eq a b, Gen.datePartialCmp_eq a b⟩⟩
 
 end JV.C11
